@@ -51,7 +51,11 @@ def gen_segments(ctx):
             o = rng.choice(pts) if rng.random() < 0.4 else (s1[0][0] + rng.choice([F(-1), F(0), F(1, 2), F(1)]) * d[0],
                                                             s1[0][1] + rng.choice([F(-1), F(0), F(1, 2), F(1)]) * d[1])
             s2 = (o, (o[0] + k * d[0], o[1] + k * d[1]))
-        out.append({"s0": s1[0], "e0": s1[1], "s1": s2[0], "e1": s2[1]})
+        # the predicates are scale free: the same configuration at the scales 1, 2^-10, 2^-22, 2^-30, 2^20 (exact in binary64)
+        k = rng.choice([0, 0, -10, -22, -30, 20])
+        sc = F(2) ** k
+        out.append({"s0": (s1[0][0] * sc, s1[0][1] * sc), "e0": (s1[1][0] * sc, s1[1][1] * sc),
+                    "s1": (s2[0][0] * sc, s2[0][1] * sc), "e1": (s2[1][0] * sc, s2[1][1] * sc), "scale": k})
     return out
 
 
@@ -125,6 +129,53 @@ def gen_polys(ctx):
 
 def rows_of(pts):
     return [[p[0] for p in pts], [p[1] for p in pts]]
+
+
+def judge_seg(c, op, cfg, raw):
+    """segment_intersection on exact data: fails exactly on parallel segments, otherwise returns the parameters of the common point of
+    the two lines (exact rational reference)"""
+    if "exc" in raw:
+        return "raised %s: %s" % (raw["exc"], raw.get("msg"))
+    res = dec_res(raw["ok"])
+    d0 = (c["e0"][0] - c["s0"][0], c["e0"][1] - c["s0"][1])
+    d1 = (c["e1"][0] - c["s1"][0], c["e1"][1] - c["s1"][1])
+    cross = d0[0] * d1[1] - d0[1] * d1[0]
+    if cross == 0:
+        return None if res[2] is False else "parallel segments but success = %r" % (res[2],)
+    if res[2] is not True:
+        return "the segments are not parallel (cross product %s) but segment_intersection reports failure" % cross
+    sd = (c["s1"][0] - c["s0"][0], c["s1"][1] - c["s0"][1])
+    s_ = (sd[0] * d1[1] - sd[1] * d1[0]) / cross
+    t_ = (sd[0] * d0[1] - sd[1] * d0[0]) / cross
+    if not (isinstance(res[0], Fraction) and isinstance(res[1], Fraction)):
+        return "non-finite parameters"
+    if abs(res[0] - s_) > TOL * max(1, abs(s_)) or abs(res[1] - t_) > TOL * max(1, abs(t_)):
+        return "parameters (%r, %r), exact (%r, %r)" % (float(res[0]), float(res[1]), float(s_), float(t_))
+    return None
+
+
+def judge_llc(c, op, cfg, raw):
+    """line_line_collide on exact data = the two closed segments share a point (exact rational reference)"""
+    if "exc" in raw:
+        return "raised %s: %s" % (raw["exc"], raw.get("msg"))
+    res = dec_res(raw["ok"])
+    d0 = (c["e0"][0] - c["s0"][0], c["e0"][1] - c["s0"][1])
+    d1 = (c["e1"][0] - c["s1"][0], c["e1"][1] - c["s1"][1])
+    cross = d0[0] * d1[1] - d0[1] * d1[0]
+    sd = (c["s1"][0] - c["s0"][0], c["s1"][1] - c["s0"][1])
+    if cross != 0:
+        s_ = (sd[0] * d1[1] - sd[1] * d1[0]) / cross
+        t_ = (sd[0] * d0[1] - sd[1] * d0[0]) / cross
+        want = 0 <= s_ <= 1 and 0 <= t_ <= 1
+    else:
+        if sd[0] * d0[1] - sd[1] * d0[0] != 0:
+            want = False
+        else:
+            n0 = d0[0] ** 2 + d0[1] ** 2
+            a = (sd[0] * d0[0] + sd[1] * d0[1]) / n0
+            b = ((c["e1"][0] - c["s0"][0]) * d0[0] + (c["e1"][1] - c["s0"][1]) * d0[1]) / n0
+            want = not (max(a, b) < 0 or min(a, b) > 1)
+    return None if res is want else "line_line_collide = %r, the closed segments %s" % (res, "share a point" if want else "are disjoint")
 
 
 def judge_hull(c, op, cfg, raw):
@@ -301,14 +352,14 @@ def run(ctx):
     a4 = lambda c: [enc_vec(list(c["s0"])), enc_vec(list(c["e0"])), enc_vec(list(c["s1"])), enc_vec(list(c["e1"]))]
     t4 = lambda c: "%s %s %s %s" % (v2(c["s0"]), v2(c["e0"]), v2(c["s1"]), v2(c["e1"]))
     correspond(ctx, "segment_intersection", sg, [("hazmat.segment_intersection", a4, whole)],
-               mk_coq(lambda c: "py_segment_intersection " + t4(c)), HEADER, "chk_val", configs=("pure",), nontrivial=nt)
+               mk_coq(lambda c: "py_segment_intersection " + t4(c)), HEADER, "chk_val", judge=judge_seg, configs=("pure",), nontrivial=nt)
     correspond(ctx, "parallel_lines_parameters", sg, [("hazmat.parallel_lines_parameters", a4, whole)],
                mk_coq(lambda c: "py_parallel_lines_parameters " + t4(c)), HEADER, "chk_val", configs=("pure",), nontrivial=nt)
     l2 = lambda c: [enc_arr([[c["s0"][0], c["e0"][0]], [c["s0"][1], c["e0"][1]]]), enc_arr([[c["s1"][0], c["e1"][0]], [c["s1"][1], c["e1"][1]]])]
     correspond(ctx, "line_line_collide", sg, [("hazmat.line_line_collide", l2, whole)],
                mk_coq(lambda c: "py_line_line_collide %s %s" % (mat([[c["s0"][0], c["e0"][0]], [c["s0"][1], c["e0"][1]]]),
                                                                 mat([[c["s1"][0], c["e1"][0]], [c["s1"][1], c["e1"][1]]]))),
-               HEADER, "chk_val", configs=("pure",), nontrivial=nt)
+               HEADER, "chk_val", judge=judge_llc, configs=("pure",), nontrivial=nt)
     # ---- hull and collision (hand model)
     hl = gen_hull(ctx)
     correspond(ctx, "simple_convex_hull", hl,
